@@ -40,3 +40,22 @@ From Verif Require Import Gen.Globals.
 Lemma globals_checked :
   globals_ok global_writes go_statements concurrency_imports receiver_field_writes ["Parser"; "Lexer"; "File"]%string = true.
 Proof. vm_compute. reflexivity. Qed.
+
+(* ---------- panic-escape analysis (Gen/SkeletonData.v from parser.go, lexer.go, split.go) ---------- *)
+From Verif Require Import Skel.Skeleton Gen.SkeletonData.
+(* C03/C09: the proposed set of functions a *Error panic can leave is a post-fixpoint of the regenerated skeleton, and no
+   exported function or method belongs to it *)
+Definition escaping_now : list string := Eval vm_compute in escaping skeleton.
+Lemma escape_postfix_checked : is_postfix skeleton escaping_now = true.
+Proof. vm_compute. reflexivity. Qed.
+Lemma entries_do_not_escape : forallb (fun f => negb (smem f escaping_now)) entry_points = true.
+Proof. vm_compute. reflexivity. Qed.
+
+(* C09: the error-list discipline holds syntactically in the current source *)
+Definition error_discipline_ok (ew bs es : list (string * bool)) (entries : list string) : bool :=
+  forallb snd ew && forallb snd bs && forallb snd es
+  && negb (match bs with [] => true | _ => false end)
+  (* every exported Parser.ParseX method is among the shaped entries *)
+  && forallb (fun f => if String.prefix "Parser.Parse" f then smem f (map fst es) else true) entries.
+Lemma error_discipline_checked : error_discipline_ok errors_writes bad_sites entry_shapes entry_points = true.
+Proof. vm_compute. reflexivity. Qed.
